@@ -1217,8 +1217,16 @@ class Generator:
                 return None
             right = self.pick(others)
         how = self.rng.choice(["inner", "inner", "left", "right", "outer", "leftsemi"])
+        # join keys: no float columns (computed floats carry reduction-order noise, exact equality joins on them are
+        # not stable) except the deliberate int-vs-float pairing, and no nulls on either side (null-key matching differs
+        # between join algorithms; a C02-type question, not claimed)
         common = [c for c in left.cols if c in right.cols and left.cols[c] in ("int", "float", "str", "cat", "dt")
-                  and (right.cols[c] == left.cols[c] or {left.cols[c], right.cols[c]} <= {"int", "float"})]
+                  and (right.cols[c] == left.cols[c] or {left.cols[c], right.cols[c]} <= {"int", "float"})
+                  and not (left.cols[c] == "float" and right.cols[c] == "float")]
+        try:
+            common = [c for c in common if not bool(self.pool[left.id][c].isna().any().compute()) and not bool(self.pool[right.id][c].isna().any().compute())]
+        except Exception:
+            return None
         op = {"op": "merge", "src": [left.id, right.id], "how": how}
         r = self.rng.random()
         labels = "open"
